@@ -174,6 +174,18 @@ Section Threshold.
   Qed.
 End Threshold.
 
+Lemma threshold_contract_inhabited_lemma :
+  let liab := fun i : nat => inject_Z (Z.of_nat i) in
+  NoDup [2] /\ (forall i, In i [2] -> 0 <= i < Z.of_nat 3) /\ lenZ [2] = 1
+  /\ (forall i j, In (Z.of_nat i) [2] -> ~ In (Z.of_nat j) [2] -> (j < 3)%nat -> (liab j <= liab i)%Q)
+  /\ threshold 3 1 [2] = [false; false; true].
+Proof.
+  cbv zeta. split; [constructor; [intros []|constructor]|].
+  split; [intros i [<-|[]]; cbn; lia|]. split; [reflexivity|]. split; [|reflexivity].
+  intros i j [Hi|[]] _ Hj. assert (i = 2%nat) by lia. subst.
+  unfold Qle. cbn. lia.
+Qed.
+
 (* soundness of the pairwise liability check used in C09_Check.pheno_ok *)
 Lemma liab_check_sound : forall rows : list (bool * (Q * Q)),
   forallb (fun '(ci, (li, si)) =>
